@@ -151,7 +151,8 @@ def tie(tier, seed):
     items = items_for(tier, seed)
     out, errors = par.run(items, export_item)
     agree = total = skipped = 0
-    rot_yes = rot_no = rot_other = early_yes = 0
+    rot_yes = rot_no = rot_other = early_yes = uni_yes = uni_early_yes = uni_region_entry = 0
+    uni_unmet = []
     rot_unmet = []
     mism = []
     shapes = {}
@@ -174,6 +175,14 @@ def tie(tier, seed):
                     rot_yes += 1
                 elif x[3] == 2:
                     rot_other += 1
+                    if len(uni_unmet) < 4:
+                        uni_unmet.append({"graph": item[1]})
+                elif x[3] == 4:
+                    uni_yes += 1
+                elif x[3] == 5:
+                    uni_early_yes += 1
+                elif x[3] == 6:
+                    uni_region_entry += 1
                 elif x[3] == 3:
                     early_yes += 1
                 else:
@@ -187,5 +196,8 @@ def tie(tier, seed):
     return {"calls_compared": total, "agree": agree, "mismatch_count": total - agree, "mismatches": mism,
             "plain_rotations_meeting_path_theorem_hypotheses": rot_yes, "plain_rotations_or_early_returns_not_meeting_them": rot_no,
             "plain_rotation_unmet_examples": rot_unmet, "early_returns_meeting_path_theorem_hypotheses": early_yes,
-            "calls_with_several_headers": rot_other,
+            "unified_rotations_meeting_path_theorem_hypotheses": uni_yes,
+            "unified_early_returns_meeting_path_theorem_hypotheses": uni_early_yes,
+            "calls_with_several_headers_and_a_region_entry_outside_the_theorem": uni_region_entry,
+            "calls_with_several_headers_not_meeting_them": rot_other, "several_headers_unmet_examples": uni_unmet,
             "calls_by_shape": shapes, "skipped": skipped, "harness_errors": [repr(e)[:200] for e in errors][:3]}
